@@ -62,7 +62,8 @@ impl Prop for C12 {
         tier.pick(0.25, 0.5)
     }
     fn max_shrink_iters(&self) -> u32 {
-        400
+        // a shrink step of a case with injected failures costs dozens of child processes
+        120
     }
     fn check(&self, c: &Case) -> Outcome {
         let mut out = Outcome::default();
